@@ -1,7 +1,9 @@
 package hotline
 
 import (
+	"crypto/sha256"
 	"encoding/binary"
+	"encoding/hex"
 	"fmt"
 	"golang.org/x/crypto/bcrypt"
 	"io"
@@ -64,9 +66,22 @@ func (a *Account) Read(p []byte) (int, error) {
 	return n, nil
 }
 
+// bcryptInput returns what is handed to bcrypt for a password.  bcrypt reads at most 72 bytes and refuses to hash more,
+// so a longer password is replaced by the hex form of its SHA-256 digest; passwords of up to 72 bytes are passed through
+// unchanged, which keeps every stored hash valid.
+func bcryptInput(pwd []byte) []byte {
+	if len(pwd) <= 72 {
+		return pwd
+	}
+
+	sum := sha256.Sum256(pwd)
+
+	return []byte(hex.EncodeToString(sum[:]))
+}
+
 // HashAndSalt generates a password hash from a users obfuscated plaintext password
 func HashAndSalt(pwd []byte) string {
-	hash, _ := bcrypt.GenerateFromPassword(pwd, bcrypt.MinCost)
+	hash, _ := bcrypt.GenerateFromPassword(bcryptInput(pwd), bcrypt.MinCost)
 
 	return string(hash)
 }
